@@ -310,6 +310,20 @@ def _impl(tier, seed, search):
             depth = int(g.integers(1, 5))
             ok, r = L.noraise('expr SO3 vs UQ', lambda: tree(depth), dict(depth=depth), 'expression tree in SO3 and UnitQuaternion')
             if ok: L.close('expr SO3 vs UQ', r[1].R, r[0].A, TOL, 1.0, dict(depth=depth))
+    # round 11: SE3.Rx / Ry / Rz with the t= option agree with transl(t)·rot (class product, base function with t=, SO3 and quaternion rotation block)
+    t_ = np.array([1.0, 2.0, 3.0])
+    for ax_, bf_, bt_ in (('Rx', b.rotx, b.trotx), ('Ry', b.roty, b.troty), ('Rz', b.rotz, b.trotz)):
+        for th_, un_ in ((0.3, 'rad'), (-2.1, 'rad'), (75.0, 'deg'), ([0.3, -1.2], 'rad'), ([20.0, 200.0], 'deg')):
+            inp_ = dict(axis=ax_, theta=th_, unit=un_, t=t_)
+            ok, r = L.noraise(f'SE3.{ax_}(t=)', lambda: getattr(SE3, ax_)(th_, un_, t=t_), inp_, f'SE3.{ax_}(theta, unit, t=t)', sig=f'SE3.{ax_}(t=):raises')
+            if not ok: continue
+            ths_ = th_ if isinstance(th_, list) else [th_]
+            L.check(f'SE3.{ax_}(t=):len', len(r) == len(ths_), inp_, 'one pose per angle expected')
+            for k_, a_ in enumerate(ths_[:len(r)]):
+                ref_ = np.eye(4); ref_[:3, :3] = bf_(a_, un_); ref_[:3, 3] = t_
+                L.close(f'SE3.{ax_}(t=)', np.asarray(r[k_].A, float), ref_, 1e-12, 3.0, dict(inp_, k=k_), what=f'SE3.{ax_}(θ, t=t) is not transl(t)·rot(θ)', sig=f'SE3.{ax_}(t=)')
+                L.close(f'SE3.{ax_}(t=) = SE3(t)*SE3.{ax_}', np.asarray(r[k_].A, float), (SE3(t_) * getattr(SE3, ax_)(a_, un_)).A, 1e-12, 3.0, dict(inp_, k=k_), sig=f'SE3.{ax_}(t=)')
+                L.close(f'SE3.{ax_}(t=) = trot(t=)', np.asarray(r[k_].A, float), bt_(a_, un_, t=t_), 1e-12, 3.0, dict(inp_, k=k_), sig=f'SE3.{ax_}(t=)')
     return L.result()
 
 if __name__ == '__main__':
